@@ -430,7 +430,7 @@ def gen_surface(rng, macro=True):
                     float(rng.choice([0, 0, -2, 1])),
                     float(rng.choice([0, 0, 1.4])),
                     float(rng.choice([0, 0, -1.7])),
-                    float(rng.choice([-25, -4, -9, -1])), c(), c(), c()]
+                    float(rng.choice([-25, -4, -9, -1, 1, 4, 2.5])), c(), c(), c()]
     if mn == 'gq':
         return mn, [float(rng.choice([1, 2, 0.5, 0, -1])) for _ in range(3)] \
             + [float(rng.choice([0, 0, 0.5, -1])) for _ in range(3)] \
